@@ -798,8 +798,13 @@ impl OpSource for RandomOps {
         let mut x = 0u64;
         match op {
             "read_obj" | "write_obj" => {
-                if rng.chance(1, 2) {
-                    n = *rng.pick(&[0usize, 1, 2, 3, 4, 5, 6, 7, 8, 9, 16, 2048, 4095, 4096, 4097, 6144]);
+                // sizes for which the harness has a ByteValued type; mostly ones that fit
+                const SIZES: [usize; 16] = [0, 1, 2, 3, 4, 5, 6, 7, 8, 9, 16, 2048, 4095, 4096, 4097, 6144];
+                let fit: Vec<usize> = SIZES.iter().copied().filter(|&s| s <= l.avail).collect();
+                if rng.chance(2, 3) && !fit.is_empty() {
+                    n = *rng.pick(&fit);
+                } else if rng.chance(1, 2) {
+                    n = *rng.pick(&SIZES);
                 }
             }
             "read_to_at" => x = rng.below((sc.sink_size - n.min(sc.sink_size)) as u64 + 1),
